@@ -46,6 +46,7 @@ def run():
                      "std's sort_by_key / sort_by are stable", "glob matching itself is C16"],
         outside=["hard-link / isolate sub-grouping (IndexMap)", "the clap attribute defining -n", "glob matcher (C16)"])
     ctx = oblig.Ctx()
+    oblig.install_battery(rep, ctx, ["c08_battery"])
     prog = ctx.lib
     part_common.add(rep, prog, ["patterns", "atomic-subgroups", "top-up-order", "retention-count"], "C08", part_common.make_replayer(ctx))
 
@@ -175,6 +176,46 @@ def run():
         fi = binp.src.field_index
         GROUP = binp.src.variant_index("Command", "Group")
 
+        def canonicalising(ev, p):
+            if re.search(r"canonicalize|dunce::", ev.callee):
+                return True
+            for a in (ev.args or ()):
+                c = oblig.closure_value(a)
+                if c is not None:
+                    try:
+                        _, qs = oblig.run_closure(binp, c, p, eng=eng, unroll=0)
+                    except Inconclusive:
+                        continue
+                    if any(re.search(r"canonicalize|dunce::", e2.callee) for q in qs for e2 in q.events if e2.kind == "call"):
+                        return True
+            return False
+
+        def producer(p, v):
+            for ev in p.events:
+                if ev.kind == "call" and ev.ret is not None and (ev.ret is v or (isinstance(v, Lazy) and isinstance(ev.ret, Lazy) and ev.ret.name == v.name)):
+                    return ev
+            return None
+
+        def origin(p, st, v, depth=10):
+            """where an isolate-roots value comes from: 'cli' (the DedupeConfig given on the command line), ('header', canon of the
+            GroupConfig whose input_paths were taken) or None"""
+            for _ in range(depth):
+                if isinstance(v, Lazy) and v.name == "config.isolated_roots":
+                    return "cli"
+                if isinstance(v, mirsym.Ref):
+                    c = summaries.canon(eng, st, v)
+                    if "config.isolated_roots" in c:
+                        return "cli"
+                    v = summaries.deref_val(eng, st, v)
+                    continue
+                ev = producer(p, v)
+                if ev is None:
+                    return None
+                if re.search(r"GroupConfig::input_paths$", ev.callee):
+                    return ("header", summaries.canon(eng, st, ev.args[0]))
+                v = ev.args[0] if ev.args else None
+            return None
+
         def prop(p):
             d = called(p, r"(^|::)dedupe$")
             if not d:
@@ -205,11 +246,11 @@ def run():
             else:
                 conj.append(False)
             iso = B(gname + ".isolate")
-            ie = called(p, r"Vec.*::is_empty$|::is_empty$")
-            if isinstance(roots, Lazy) and roots.name == "config.isolated_roots":
-                conj.append(True)      # unchanged: either given on the command line or nothing to inherit
+            ip = called(p, r"GroupConfig::input_paths$")
+            if not ip:
+                conj.append(True)      # roots as given on the command line, or nothing to inherit
             else:
-                ip = called(p, r"GroupConfig::input_paths$")
+                # roots are taken from a recorded command only if it is the `group` command of the header and it had --isolate
                 conj.append(z3.And(iso, z3.BoolVal(len(ip) == 1 and gname in summaries.canon(eng, st, ip[0].args[0]))))
             out = []
             for c in conj:
@@ -221,6 +262,32 @@ def run():
             return z3.And(*out) if out else z3.BoolVal(True)
         rep.add(oblig.check_paths(eng, ps, "run_dedupe: rf_over, match_links and the disabled size check are inherited from the recorded `group` command",
                                   prop, oblig.fnames(eng), key="run_dedupe:header-merge", allow=("return", "panic", "diverge", "bound")))
+
+        # isolate roots - given with --isolate on the dedupe command line or inherited from the header - must be brought to the
+        # canonical form of the reported paths before they are compared with them (Path::is_prefix_of is component-wise)
+        def roots_prop(p):
+            d = called(p, r"(^|::)dedupe$")
+            if not d:
+                return None
+            st = _st(p)
+            cfg = summaries.deref_val(eng, st, d[0].args[2])
+            roots = eng.read_proj(None, cfg, ("field", fi("DedupeConfig", "isolated_roots"), "?"))
+            # follow the value back through collect / map / iter ... and look for a canonicalising step
+            v, seen_canon = roots, False
+            for _ in range(8):
+                ev = producer(p, v)
+                if ev is None:
+                    break
+                if canonicalising(ev, p):
+                    seen_canon = True
+                    break
+                v = ev.args[0] if ev.args else None
+                if v is None:
+                    break
+            return z3.BoolVal(seen_canon)
+        o = oblig.check_paths(eng, ps, "run_dedupe: the isolate roots handed to dedupe (given with --isolate or inherited from the header) are canonicalised like the reported paths",
+                              roots_prop, oblig.fnames(eng), key="run_dedupe:isolate-roots-canonical", allow=("return", "panic", "diverge", "bound"))
+        rep.add(o)
     except Inconclusive as ex:
         o = Obligation("run_dedupe header merge", "E2 mirsym/z3")
         o.verdict, o.detail = "inconclusive", str(ex)
